@@ -304,40 +304,34 @@ class Builder:
         self.nm, self.nv, self.ns = 1, 1, nscalars
         self.loop = 0           # > 0: inside a per-node loop (no lets: values mention the loop hole)
 
-    def _bind_t(self, kind, vars, t):
-        if self.loop or t[0] in ('Cst', 'Nn', 'Sc') or (t[0] in ('Mx', 'Vc')):
-            return t, vars
+    def _let(self, kind, src, t, dst):
+        """bind term t (holes src) by a let unless it is atomic; returns the reference with holes dst"""
+        if t[0] in ('Cst', 'Nn', 'Sc', 'Mx', 'Vc'):
+            return subst(t, dict(zip(src, dst)))
         if kind == 'S':
             i = self.ns; self.ns += 1
             self.lets.append(('S', i, t))
-            return ('Sc', i), ()
+            return ('Sc', i)
         if kind == 'V':
             i = self.nv; self.nv += 1
-            self.lets.append(('V', i, subst(t, {vars[0]: 0})))
-            x = fresh()
-            return ('Vc', i, x), (x,)
+            self.lets.append(('V', i, subst(t, {src[0]: 0})))
+            return ('Vc', i, dst[0])
+        if src[0] == src[1]:
+            bad('internal: repeated hole')
         i = self.nm; self.nm += 1
-        self.lets.append(('M', i, subst(t, {vars[0]: 0, vars[1]: 1}) if vars[0] != vars[1] else bad('internal: repeated hole')))
-        x, y = fresh(), fresh()
-        return ('Mx', i, x, y), (x, y)
+        self.lets.append(('M', i, subst(t, {src[0]: 0, src[1]: 1})))
+        return ('Mx', i, dst[0], dst[1])
 
     def bind(self, v):
         """one Python assignment of an array value = one let; the name then refers to the let-bound variable"""
         if not isinstance(v, Arr) or self.loop:
             return v
-        fv = free_vars(v.t) - set(v.vars)
-        if fv or (v.inf is not None and free_vars(v.inf) - set(v.vars)):
+        if free_vars(v.t) - set(v.vars) or (v.inf is not None and free_vars(v.inf) - set(v.vars)):
             bad('internal: value with stray index holes')
-        t, vars = self._bind_t(v.kind, v.vars, v.t)
-        inf = None
-        if v.inf is not None:
-            it, ivars = self._bind_t(v.kind, v.vars, v.inf)
-            inf = subst(it, dict(zip(ivars, vars))) if ivars else it
-            if not ivars and v.kind != 'S' and it[0] not in ('Cst', 'Nn', 'Sc'):
-                inf = subst(v.inf, dict(zip(v.vars, vars)))
-        if not vars and v.kind != 'S':
-            vars = v.vars
-        return Arr(v.kind, vars if v.kind != 'S' else (), t, inf, v.isbool, v.oid)
+        dst = holes(v.kind)
+        t = self._let(v.kind, v.vars, v.t, dst)
+        inf = None if v.inf is None else self._let(v.kind, v.vars, v.inf, dst)
+        return Arr(v.kind, dst, t, inf, v.isbool, v.oid)
 
 
 # ------------------------------------------------------------------------------------------------ elementwise
@@ -489,6 +483,7 @@ class Frame:
         self.cur = None            # vector name -> term of its cell at the loop node
         self.guard = None
         self.loop_assigned = set()
+        self.loop_written = set()
 
     # ---------- statements
     def block(self, stmts):
@@ -543,6 +538,8 @@ class Frame:
             return self.block(st.body if c.v else st.orelse)
         if isinstance(c, Arr) and c.kind == 'S' and c.t[0] == 'Cst':
             return self.block(st.body if c.t[1] != 0 else st.orelse)
+        if all(isinstance(x, ast.Expr) and isinstance(x.value, ast.Call) and ast.unparse(x.value.func) == 'print' for x in st.body + st.orelse):
+            return     # only prints: no effect on the result
         if self.loopvar is None:
             bad('`if` on a computed value outside a per-node loop', st)
         if not (isinstance(c, Arr) and c.kind == 'S' and c.inf is None):
@@ -708,6 +705,10 @@ class Frame:
         if st.orelse or not isinstance(st.target, ast.Name):
             bad('for loop form', st)
         it = st.iter
+        if isinstance(it, ast.Call) and ast.unparse(it.func) == 'range' and len(it.args) == 2 and not it.keywords:
+            lo, hi = self.expr(it.args[0]), self.expr(it.args[1])
+            if all(isinstance(v, Arr) and v.kind == 'S' and v.t[0] == 'Cst' for v in (lo, hi)) and lo.t[1] >= hi.t[1]:
+                return     # statically empty range (after specialisation of a parameter)
         if not (isinstance(it, ast.Call) and ast.unparse(it.func) == 'range' and len(it.args) == 1 and not it.keywords):
             bad('only `for u in range(n)` over all nodes is translated', st)
         n = self.expr(it.args[0])
@@ -717,6 +718,8 @@ class Frame:
             bad('nested loops', st)
         u = Node(fresh())
         saved = dict(self.env)
+        self.loop_written = {x.value.id for s_ in st.body for x in ast.walk(s_)
+                             if isinstance(x, ast.Subscript) and isinstance(x.ctx, ast.Store) and isinstance(x.value, ast.Name)}
         self.loopvar, self.cur, self.loop_assigned = u, {}, set()
         self.b.loop += 1
         self.env[st.target.id] = u
@@ -725,7 +728,7 @@ class Frame:
         finally:
             self.b.loop -= 1
         cur, assigned = self.cur, self.loop_assigned
-        self.loopvar, self.cur, self.loop_assigned = None, None, set()
+        self.loopvar, self.cur, self.loop_assigned, self.loop_written = None, None, set(), set()
         # names bound inside the body hold the LAST node's values afterwards: not index-symmetric
         env = dict(saved)
         for k in assigned | {st.target.id}:
@@ -798,7 +801,14 @@ class Frame:
         # the step must be a closed term over the iterate: inline the inner lets is not possible in the term language,
         # so the body may bind nothing but what it can recompute: require that A's lets are vectors / scalars only and
         # re-express them by substitution (terms are pure)
-        step_t = inline_lets(subst(step.t, {step.vars[0]: 0, step.vars[1]: 1}) if step.t[0] != 'Mx' else bad('loop does not change its matrix', st), inner)
+        step_t = inline_lets(subst(step.t, {step.vars[0]: 0, step.vars[1]: 1}), inner)
+        if step_t == ('Mx', mid, 0, 1):
+            bad('loop does not change its matrix', st)
+        if any(k[0] == 'S' and k[1] >= 0 for k in uses(step_t, set()) if k[0] != 'S') and False:
+            pass
+        for k in uses(step_t, set()):
+            if (k[0] == 'M' and k[1] not in (0, mid) and k[1] >= mid) or (k[0] in ('V', 'S') and any(l[0] == k[0] and l[1] == k[1] for l in inner)):
+                bad('internal: loop step refers to a variable bound inside the loop', st)
         # names changed by the body
         changed = [k for k in self.env if saved_env.get(k) is not self.env[k]]
         self.env = saved_env
@@ -824,8 +834,8 @@ class Frame:
             v = self.env[e.id]
             if isinstance(v, Poison):
                 bad('use of %s: %s' % (e.id, v.why), e)
-            if self.loopvar is not None and self.cur is not None and e.id in self.cur:
-                bad('a vector written by the loop is read as a whole inside the loop (cross-iteration dependency)', e)
+            if self.loopvar is not None and e.id in self.loop_written:
+                bad('a vector written by the loop is read inside the loop other than at its own cell (cross-iteration dependency)', e)
             return v
         if isinstance(e, ast.Tuple):
             return PyTuple([self.expr(x) for x in e.elts])
@@ -1110,7 +1120,7 @@ class Frame:
         def ev(k=0):
             return self.expr(A[k])
         # ---- methods
-        if isinstance(e.func, ast.Attribute) and not fn.startswith('np.'):
+        if isinstance(e.func, ast.Attribute) and not (isinstance(e.func.value, ast.Name) and e.func.value.id == 'np'):
             meth = e.func.attr
             recv = e.func.value
             if meth == 'copy':
@@ -1228,6 +1238,15 @@ class Frame:
             if 'dtype' in kw:
                 return self.astype(v, ast.unparse(kw['dtype']), e)
             return v
+        if fn == 'np.tile':
+            only(2)
+            v = ev(0)
+            r = A[1]
+            if (isinstance(v, Arr) and v.kind == 'V' and v.inf is None and isinstance(r, ast.Tuple) and len(r.elts) == 2
+                    and self.shape_arg(r.elts[0], e) == 'V' and isinstance(r.elts[1], ast.Constant) and r.elts[1].value == 1):
+                x, y = fresh(), fresh()
+                return Arr('M', (x, y), v.at(y), None, v.isbool)
+            bad('np.tile form', e)
         if fn == 'np.size':
             if len(A) != 1 or kw:
                 bad('np.size with an axis', e)
@@ -1282,6 +1301,13 @@ class Frame:
 
     def subscript(self, e):
         sl = e.slice
+        if self.loopvar is not None and isinstance(e.value, ast.Name) and e.value.id in self.loop_written:
+            # the loop's own output vector: only its cell at the loop node may be read
+            nm = e.value.id
+            X = self.env.get(nm)
+            if isinstance(sl, ast.Name) and self.env.get(sl.id) is self.loopvar and isinstance(X, Arr) and X.kind == 'V' and X.inf is None:
+                return Arr('S', (), self.cur.get(nm, X.at(self.loopvar.var)))
+            bad('a vector written by the loop is read inside the loop other than at its own cell (cross-iteration dependency)', e)
         # tuple results of inlined calls: f(X)[k]
         base = self.expr(e.value)
         if isinstance(base, PyTuple):
